@@ -137,6 +137,35 @@ def driverStep (st : Unit) (line : String) : Unit × String :=
          optTail script.length (bremTail e emass ⟨x, y, z⟩ eg script)
        | _, _ => "bad-op")
   | "relax" :: rest => relaxOp rest
+  | "mubrems" :: rest => withAlloc rest fun cap sz d script =>
+      match d with
+      | [e, cut, x, y, z, c0, re, se, dn, icz, zz, am, b, bp] =>
+        showOutcome script.length
+          (muBrems ⟨c0, re, se, dn, icz, zz, am, b, bp⟩ cap sz e mumass emass cut ⟨x, y, z⟩ script)
+      | _ => "bad-op"
+  | "coulomb" :: sgn :: ff :: iso :: nd :: rest =>
+      let (l, r) := splitBar rest
+      if !(sgn == "-" || sgn == "+") || !(ff == "0" || ff == "1" || ff == "2")
+          || !(iso == "a" || iso == "b") then "bad-op" else
+      (match parseNat nd, pfs l, pfs r with
+       | some nd, some [e, cut, x, y, z, c, mt], some script =>
+         -- `cos θ` (and the number of uniforms the real WentzelDistribution consumed) are recorded
+         -- oracle inputs; the harness re-checks them against its own sample
+         if !(e > 0.0 && e < 1e8 && cut > 0.0) then "bad-op" else
+         match script.drop nd with
+         | uPhi :: rest =>
+           if script.length < nd then "script-exhausted" else
+           showOutcome script.length (.done (coulombFinal e emass mt ⟨x, y, z⟩ c uPhi) 0 rest)
+         | [] => "script-exhausted"
+       | _, _, _ => "bad-op")
+  | "rayleigh" :: el :: rest =>
+      let (l, r) := splitBar rest
+      if !(el == "0" || el == "1" || el == "2") then "bad-op" else
+      (match pfs l, pfs r with
+       | some [e, x, y, z, k1, k2, a0, a1, a2, b0, b1, b2, n0, n1, n2], some script =>
+         optTail script.length
+           (rayleigh ⟨⟨a0, a1, a2⟩, ⟨b0, b1, b2⟩, ⟨n0, n1, n2⟩⟩ k1 k2 e ⟨x, y, z⟩ script)
+       | _, _ => "bad-op")
   | "rotate" :: rest =>
       (match pfs rest with
        | some [a, b, c, x, y, z] => hv (rotate ⟨a, b, c⟩ ⟨x, y, z⟩)
